@@ -90,6 +90,28 @@ let () =
             done;
             st := Some !cur;
             (match !res with Some r -> pr_line ("pre " ^ ret_str r) | None -> pr_line "pre <no return in the model>"))
+       | "drain" :: _ ->
+         (match !st with
+          | None -> ()
+          | Some s ->
+            let h = g_sh s in
+            let h1 = (match hsem h with Some c -> set_hsem h (Some (zi (int_of_z c + 64))) | None -> h) in
+            let cur = ref { s with g_sh = h1 } and stop = ref false and n = ref 0 in
+            while not !stop && !n < 100 do
+              incr n;
+              let c = ref (load !cur [] [RRead (zi 8192, false)]) and res = ref None and fuel = ref 100000 in
+              while !res = None && !fuel > 0 do
+                decr fuel;
+                (match step TR !c with
+                 | Some (s1, (_, r)) -> c := s1; res := r
+                 | None -> fuel := 0)
+              done;
+              cur := !c;
+              (match !res with
+               | Some ((rc, _) as r) -> pr_line ("drain " ^ ret_str r); if int_of_z rc < 0 then stop := true
+               | None -> pr_line "drain <no return in the model>"; stop := true)
+            done;
+            st := Some !cur)
        | "w" :: rest -> pw := wwrite (bytes_of_hex (match rest with h :: _ -> h | [] -> "-")) :: !pw
        | "r" :: rest -> (match parse_rcall rest false with Some c -> pr := c :: !pr | None -> ())
        | "s" :: tid :: _ ->
